@@ -68,10 +68,13 @@ def nontrivial(res):
     return (p.get("processed", 0) >= 2 and p.get("finalize_attempts", 0) > 0) or p.get("reviews", 0) > 0
 
 
-def cosigner(i):
-    if i not in _COS:
-        _COS[i] = rw.Cosigner(SEEDS[i], "m/45'/0", "mainnet")
-    return _COS[i]
+ACCOUNT_PATHS = ["m/45'/0", "m/48'/0'/0'/2'", "m/84'/0'/0'", "m/44'", "m/48'", "m/84'", "m/49'/0'/0'", "m"]
+
+
+def cosigner(i, path="m/45'/0"):
+    if (i, path) not in _COS:
+        _COS[(i, path)] = rw.Cosigner(SEEDS[i], path, "mainnet")
+    return _COS[(i, path)]
 
 
 def hd_priv(i):
@@ -106,7 +109,7 @@ class Setup:
         w = plan["wallet"]
         self.kind = w["kind"]
         self.m = w.get("m", 1)
-        self.cos = [cosigner(i) for i in w["cosigners"]]
+        self.cos = [cosigner(i, w.get("account_path", "m/45'/0")) for i in w["cosigners"]]
         self.cos_idx = list(w["cosigners"])
         self.n = len(self.cos)
         self.multi = self.kind in ("p2sh", "p2wsh", "p2sh_p2wsh")
@@ -176,7 +179,7 @@ class Setup:
             p.extra_map[b"\xfc\x05verif\x01"] = b"global-unknown"
             p.psbt_ins[0].extra_map[b"\xfc\x05verif\x02"] = b"in-unknown"
             p.psbt_outs[0].extra_map[b"\xfc\x05verif\x03"] = b""
-        if cr.get("nonwitness_only") and self.kind in ("p2wpkh", "p2wsh"):
+        if cr.get("nonwitness_only") and self.kind in ("p2wpkh", "p2wsh", "p2sh_p2wpkh", "p2sh_p2wsh"):
             # other creators document native segwit inputs by the full previous transaction only (the library loads that shape)
             pm = psbtmap.parse(p.serialize())
             for k, im in enumerate(pm["inputs"]):
@@ -307,6 +310,8 @@ class Ceremony:
         self.prop = prop
         self.tr = tr
         self.setup = Setup(plan)
+        # the network argument the nodes give to PSBT.parse: explicit, or None (the library then infers it from the derivation paths)
+        self.net = plan.get("net_arg", "mainnet")
         self.other = None
         self.tainted = False  # a corrupted / foreign message was accepted somewhere
         self.nodes = {"C": Node("C")}
@@ -321,7 +326,7 @@ class Ceremony:
         tr = self.tr
         tr.oracle("Q1")
         try:
-            again = PSBT.parse(BytesIO(raw), network="mainnet").serialize()
+            again = PSBT.parse(BytesIO(raw), network=self.net).serialize()
         except SimDeadlock:
             raise
         except Exception as e:
@@ -653,7 +658,7 @@ class Ceremony:
         tr = self.tr
         tr.probe("processed")
         try:
-            p = PSBT.parse_base64(wire, network="mainnet") if isinstance(wire, str) else PSBT.parse(BytesIO(wire), network="mainnet")
+            p = PSBT.parse_base64(wire, network=self.net) if isinstance(wire, str) else PSBT.parse(BytesIO(wire), network=self.net)
             outcome = "parsed"
         except SimDeadlock:
             raise
@@ -771,7 +776,7 @@ class Ceremony:
             return
         self.tr.fault("crash_restart")
         try:
-            node.psbt = PSBT.parse(BytesIO(node.durable), network="mainnet")
+            node.psbt = PSBT.parse(BytesIO(node.durable), network=self.net)
         except SimDeadlock:
             raise
         except Exception as e:
@@ -1231,11 +1236,11 @@ class Ceremony:
         canon_raw = None
         if not self.tainted:
             tr.oracle("Q3_confluence")
-            canon = PSBT.parse(BytesIO(self.p0), network="mainnet")
+            canon = PSBT.parse(BytesIO(self.p0), network=self.net)
             for j in sorted(observed):
-                pj = PSBT.parse(BytesIO(self.p0), network="mainnet")
+                pj = PSBT.parse(BytesIO(self.p0), network=self.net)
                 self.sign(self.nodes[f"S{j}"], pj)
-                canon.combine(PSBT.parse(BytesIO(pj.serialize()), network="mainnet"))
+                canon.combine(PSBT.parse(BytesIO(pj.serialize()), network=self.net))
             canon_raw = canon.serialize()
             if canon_raw != before:
                 fail("C10", "Q3", "combined_psbt_depends_on_history", f"{c.name}'s combined PSBT ({len(before)} bytes) differs from the canonical schedule's (star, index order, each once) for the same signer set {sorted(observed)} ({len(canon_raw)} bytes)")
@@ -1258,7 +1263,7 @@ class Ceremony:
                 groups = [[k] for k in range(len(c.inbox))][:4] + [[k, k + 1] for k in range(len(c.inbox) - 1)][:3]
                 for g in groups:
                     try:
-                        fresh = PSBT.parse(BytesIO(self.p0), network="mainnet")
+                        fresh = PSBT.parse(BytesIO(self.p0), network=self.net)
                         for k in g:
                             fresh.combine(c.inbox[k][0])
                         got = self.signers_in(psbtmap.parse(fresh.serialize()))
@@ -1278,7 +1283,7 @@ class Ceremony:
         try:
             # usually on a re-parsed copy (the combiner's own object stays usable); 'in_place' finalises the combiner's own object, which
             # may hold records that its serialisation does not carry (e.g. a partial signature by a key outside the script)
-            fin = c.psbt if st.get("in_place") else PSBT.parse(BytesIO(before), network="mainnet")
+            fin = c.psbt if st.get("in_place") else PSBT.parse(BytesIO(before), network=self.net)
             if st.get("in_place"):
                 tr.probe("finalize_in_place")
             fin.finalize()
@@ -1326,7 +1331,7 @@ class Ceremony:
                 fail("C10", "Q4", "extracted_below_threshold", f"final_tx() returned a transaction although inputs carry {per_input} script-key signatures and the threshold is {s.m}")
             if canon_raw is not None:
                 try:
-                    cf = PSBT.parse(BytesIO(canon_raw), network="mainnet")
+                    cf = PSBT.parse(BytesIO(canon_raw), network=self.net)
                     cf.finalize()
                     ctx = cf.final_tx().serialize()
                 except SimDeadlock:
@@ -1471,6 +1476,10 @@ def generate(ch, tier, prop):
     n = len(plan["wallet"]["cosigners"])
     plan["creator"] = {"segwit_flag": ch.chance(0.3), "xpubs": ch.chance(0.25), "unknown": ch.chance(0.3), "helper": ch.chance(0.2), "both_utxo": ch.chance(0.3), "nonwitness_only": ch.chance(0.15)}
     plan["sign_method"] = "hd" if ch.chance(0.25) else "keys"
+    if ch.chance(0.3):
+        plan["wallet"]["account_path"] = ch.choice(ACCOUNT_PATHS)
+    if ch.chance(0.3):
+        plan["net_arg"] = None
     plan["encoding"] = ch.choice(["b64", "b64", "raw"])
     topo = ch.choice(["star", "chain", "gossip"]) if n > 1 else "star"
     plan["topology"] = topo
@@ -1645,8 +1654,22 @@ def enumerate_plans(tier, prop, seed):
             plan["steps"] = [{"op": "send", "src": "C", "dst": "S0"}, {"op": "send", "src": "S0", "dst": "C", "corrupt_sig": {"which": 0, "bit": 0, "in_key": False, "retag": rt}}, {"op": "finalize"}]
             plan["enum"] = "retag-partial-sig"
             yield plan
-    # creators that document native segwit inputs by the previous transaction only: fault-free star ceremony
-    for kind, m, n in (("p2wpkh", 1, 1), ("p2wsh", 2, 3), ("p2wsh", 1, 2)):
+    # cosigner account keys at other derivation paths (depth 0..4), with and without global xpub records
+    for ap in ACCOUNT_PATHS:
+        for xp in (True, False):
+            plan = base("p2sh" if xp else "p2wsh", 1, 2)
+            plan["wallet"]["account_path"] = ap
+            plan["net_arg"] = None
+            plan["creator"] = {"segwit_flag": False, "xpubs": xp, "unknown": False, "helper": False}
+            plan["sign_method"] = "hd" if ap != "m" and not xp else "keys"
+            plan["encoding"] = "raw"
+            plan["topology"] = "star"
+            plan["steps"] = [{"op": "send", "src": "C", "dst": "S0"}, {"op": "send", "src": "S0", "dst": "C"}, {"op": "finalize"}]
+            plan["expect_complete"] = True
+            plan["enum"] = "account-paths"
+            yield plan
+    # creators that document segwit inputs by the previous transaction only: fault-free star ceremony
+    for kind, m, n in (("p2wpkh", 1, 1), ("p2wsh", 2, 3), ("p2wsh", 1, 2), ("p2sh_p2wpkh", 1, 1), ("p2sh_p2wsh", 2, 2)):
         plan = base(kind, m, n)
         plan["creator"] = {"segwit_flag": False, "xpubs": False, "unknown": False, "helper": False, "nonwitness_only": True}
         plan["sign_method"] = "keys"
